@@ -10,6 +10,7 @@ From Sdfx Require Import Geo.Box.
 From Sdfx Require Import Geo.BoxR.
 From Sdfx Require Import Geo.DCVertex.
 From Sdfx Require Import Geo.DCVertexCorr.   (* float instance used by the cases files *)
+From Sdfx Require Import Geo.DCSolve.        (* V2 vertex solver: model, float instance for the cases files *)
 From Sdfx Require Import Generated.DCTables.
 From Sdfx Require Import Algo.DualGrid.
 From Sdfx Require Import Algo.DCModel.
@@ -112,6 +113,20 @@ Theorem C19_v2_vertex_in_cell : forall (start size v : V3 ROps) (far : R),
   in_box3 (cellbox start (v3add start size)) (v2_final start size v far).
 Proof. exact v2_vertex_in_cell. Qed.
 Print Assumptions C19_v2_vertex_in_cell.
+
+(* the V2 vertex solver (Cramer's rule behind the absolute guard |det| <= 1e-12): when the guard does not
+   fire the returned point solves the 3x3 system; when it fires placeVertex uses the cell centre.  Either
+   way C19_v2_vertex_in_cell holds for the final vertex.  (Floats: the model is compared bit for bit,
+   NaN results included, in cases_ls_*.v.) *)
+Theorem C19_v2_solver_guarded : forall (inf : R) (r0 r1 r2 : V3 ROps) (b0 b1 b2 : R),
+  let det := @det3 ROps (wx r0) (wy r0) (wz r0) (wx r1) (wy r1) (wz r1) (wx r2) (wy r2) (wz r2) in
+  1 / 1000000000000 < Rabs det ->
+  let x := @solve3x3 ROps inf r0 r1 r2 b0 b1 b2 in
+  wx r0 * wx x + wy r0 * wy x + wz r0 * wz x = b0 /\
+  wx r1 * wx x + wy r1 * wy x + wz r1 * wz x = b1 /\
+  wx r2 * wx x + wy r2 * wy x + wz r2 * wz x = b2.
+Proof. exact solve3x3_solves. Qed.
+Print Assumptions C19_v2_solver_guarded.
 
 Theorem C19_vertex_near_zero : forall (f : V3 ROps -> R) (mn mx a b v : V3 ROps),
   in_box3 (cellbox mn mx) a -> in_box3 (cellbox mn mx) b -> in_box3 (cellbox mn mx) v ->
